@@ -37,6 +37,10 @@ def cases(draw, tier, det):
             "n2_pick": draw(st.integers(0, 1000)), "drop": draw(st.sampled_from(["tail", "head"]))}
     # CAPA / MVCAPA: a maximum length right at the length of the series (n - 1, n, n + 1), and data far from the zero baseline
     # (a whole-series anomaly is then optimal)
+    if det == "MovingWindow" and params["threshold_scale"] is not None and draw(st.integers(0, 4)) == 0:
+        # a significance level close to 1 (accepted: the documented domain is level > 0): for n close to 2 * bandwidth the
+        # default threshold is then negative (D30)
+        params["level"] = draw(st.sampled_from([0.999, 0.9999, 0.99999, 0.995]))
     if det in ("CAPA", "MVCAPA"):
         at_n = draw(st.sampled_from([None, None, None, -1, 0, 1]))
         if at_n is not None and n + at_n >= params["min_segment_length"]:
@@ -119,8 +123,10 @@ def check(case):
     thr = getattr(det, "threshold_", None)
     if name == "StatThresholdAnomaliser":
         thr = getattr(det.change_detector_, "threshold_", None)
-    if thr is not None and thr < 0:
+    if thr is not None and thr < 0 and name != "MovingWindow":
         return {"nontrivial": False, "classes": ["negative_tuned_threshold_excluded"]}
+    if thr is not None and thr < 0:
+        classes.append("negative_threshold")
     info = K.check_wellformed(name, params, n, p, y)
     ev = info["events"]
     if later is not None:
